@@ -18,11 +18,12 @@ networkx returns.
 from pyvc.api import *
 
 level("C04", "other",
+      "Command.get_dependencies (real method, every parameter-dependency subset x ordered target list over 3 wires) = parameter dependencies UNION targets. "
       "Shape-bounded contracts on abstract commands (every dependency-set assignment for sequences of <= 3 / 4 commands over 3 "
       "wires): list_to_grid, grid_to_DAG, DAG_to_list, group_operations. Bounded stand-ins (not proofs): the DAG surgery of the "
       "gaussian_merge compiler on every command sequence of length <= 4 / 5 over an 8-symbol two-mode alphabet and on generated hybrid "
       "circuits (opaque gates interpreted as fixed unitaries, exact comparison); exhaustive over all command sequences of length <= 3 (quick) / <= 4 (thorough) over "
-      "a 13-symbol alphabet on 3 modes (one- and two-mode gates in both orders, measurements, three feed-forward gates, "
+      "a 15-symbol alphabet on 3 modes (one- and two-mode gates in both orders, measurements, three feed-forward gates, two gates fed by a measurement of one of their OWN target modes, "
       "a loss channel) plus seeded random longer sequences; for each: get_dependencies, per-wire grid content and order, DAG "
       "node set, acyclicity and a directed PATH between every pair of commands sharing a mode or a measured parameter "
       "(hence every legal linearisation keeps their order), DAG_to_list permutation/order, group_operations "
@@ -31,7 +32,7 @@ level("C04", "other",
                "property holds for every linear extension)"])
 
 native("C04", "c04_reorder", "native/c04_reorder.py",
-       bound="all sequences of length <= 3 (quick) / 4 (thorough) over 13 symbols on 3 modes + 400/4000 random longer ones; 24 GBS programs",
+       bound="all sequences of length <= 3 (quick) / 4 (thorough) over 15 symbols on 3 modes (incl. a one- and a two-mode gate fed by a measurement of their own mode) + 400/4000 random longer ones; 24 GBS programs",
        timeout=900)
 
 
